@@ -390,11 +390,16 @@ func c16BuildReal(tier string) core.Source {
 	edits := c16AllEdits()
 	type cs struct {
 		n    int
-		edit int // -1 identical; -2.. shifts; >=0 edit index
+		edit int // -1 identical; >=0 edit index; <= -10: long deletion number -10-k
 	}
+	// long deletions: the new file is much shorter than the receiver's copy (its end then consists of the basis' tail)
+	longDel := []struct{ offNum, offDen, lenNum, lenDen int }{{0, 1, 1, 2}, {1, 3, 1, 3}, {1, 7, 3, 5}, {0, 1, 9, 10}}
 	var cases []cs
 	for _, n := range sizes {
 		cases = append(cases, cs{n, -1})
+		for k := range longDel {
+			cases = append(cases, cs{n, -10 - k})
+		}
 		for e := range edits {
 			if n > 1<<20 && e%7 != 0 {
 				continue
@@ -412,6 +417,13 @@ func c16BuildReal(tier string) core.Source {
 			target, ins = e.apply(basis, B, 77)
 			eds = 1
 			name = e.String(B, c.n)
+		}
+		if c.edit <= -10 {
+			d := longDel[-10-c.edit]
+			off, ln := c.n*d.offNum/d.offDen, c.n*d.lenNum/d.lenDen
+			target = append(append([]byte{}, basis[:off]...), basis[off+ln:]...)
+			eds = 1
+			name = fmt.Sprintf("d@%d+%d (long deletion)", off, ln)
 		}
 		res := core.Result{Case: fmt.Sprintf("real generator: n=%d B=%d edit=%s via lib-pull", c.n, B, name)}
 		sc := &syncCase{Arr: drive.LibPull, Args: []string{"-rt"}, Form: "contents", Rec: true,
@@ -469,7 +481,7 @@ func init() {
 	core.Register(&core.Prop{
 		ID:    "C16",
 		Level: "model_checking",
-		Rule: "shifts: target = s fresh bytes + basis for every s in 0..B (B in {8,32,700}, basis 40 blocks + remainder) served by the real sender against reference-computed sums; edits: every edit script of depth <=2 over {insert,delete,replace} x 5 lengths x 9 offsets, plus identical file, prepend, append and all 24 permutations of 4 blocks; long-runs: one or two inserted / replaced / prepended runs of 8 lengths around the sender's flush threshold and read window (256 KiB-1 .. 3*256 KiB+2B+1) at 4 positions of a 780 KiB basis, each followed by more than one chunk of known data; real: whole lib-pull sessions with the real generator's block size and the literal bytes counted by a wire tap. " +
+		Rule: "shifts: target = s fresh bytes + basis for every s in 0..B (B in {8,32,700}, basis 40 blocks + remainder) served by the real sender against reference-computed sums; edits: every edit script of depth <=2 over {insert,delete,replace} x 5 lengths x 9 offsets, plus identical file, prepend, append and all 24 permutations of 4 blocks; long-runs: one or two inserted / replaced / prepended runs of 8 lengths around the sender's flush threshold and read window (256 KiB-1 .. 3*256 KiB+2B+1) at 4 positions of a 780 KiB basis, each followed by more than one chunk of known data; real: whole lib-pull sessions with the real generator's block size (all single edits plus deletions of 1/2, 1/3, 3/5 and 9/10 of the file) and the literal bytes counted by a wire tap. " +
 			"oracle: stream denotes the target and literal bytes <= inserted + 3B per edit + B (0 for identical files and block permutations). states/transitions = requests judged; non-trivial = case with at least one edit",
 		Assum: []string{"counter-hash content has no accidental repeated blocks", "bound slack 3B per edit (an edit spoils at most the two partial blocks around it) + B for the remainder block"},
 		Parts: func(tier string) []core.Part {
